@@ -34,16 +34,16 @@ FILE_CHECKS = {
     'hotxlfp/formulas/error.py': ['C01', 'C08', 'C02'],
     'hotxlfp/formulas/__init__.py': ['C09', 'C02', 'C03'],
     'hotxlfp/formulas/mathtrig.py': ['C16', 'C17', 'C11'],
-    'hotxlfp/formulas/statistical.py': ['C11'],
-    'hotxlfp/formulas/text.py': ['C15'],
+    'hotxlfp/formulas/statistical.py': ['C11', 'C02'],
+    'hotxlfp/formulas/text.py': ['C15', 'C02', 'C08'],
     'hotxlfp/formulas/logic.py': ['C12', 'C08'],
     'hotxlfp/formulas/information.py': ['C12', 'C08', 'C13'],
     'hotxlfp/formulas/dateandtime.py': ['C14', 'C13'],
-    'hotxlfp/formulas/lookupandreference.py': ['C18'],
+    'hotxlfp/formulas/lookupandreference.py': ['C18', 'C02'],
     'hotxlfp/formulas/engineering.py': ['C17'],
     'hotxlfp/formulas/financial.py': ['C16'],
     'hotxlfp/parser.py': ['C01', 'C09', 'C10', 'C03', 'C02', 'C08'],
-    'hotxlfp/grammarparser/parser.py': ['C05', 'C04', 'C08', 'C09', 'C10', 'C01'],
+    'hotxlfp/grammarparser/parser.py': ['C05', 'C04', 'C08', 'C09', 'C10', 'C06', 'C01'],
     'hotxlfp/grammarparser/lexer.py': ['C05', 'C09', 'C10', 'C19', 'C08'],
     'hotxlfp/tinyemitter.py': ['C20', 'C10'],
     'hotxlfp/helper/cell.py': ['C19', 'C10'],
